@@ -114,6 +114,7 @@ class Gen:
         self.kinds = []            # static kind guess per pool id
         self.used = []             # pool ids that were compiled / iterated (bias)
         self.focus = None
+        self.sticky = 0            # number of following builds that must use the focus object
         self.pal = cc.palette(rng)
 
     def leaf(self):
@@ -229,9 +230,18 @@ class Gen:
         k = r.random()
         if not self.kinds or k < (0.6 if self.meta_mode else 0.18):
             return self.leaf()
+        if k > 0.975:
+            # the empty pattern wrapped and then used: every wrapper of Empty must stay neutral
+            e = r.choice([["empty"], "", ["lit", ""]])
+            w = r.choice([["new", "Capture", e], ["new", "Group", e], ["new", "Capture", e, "ne"], ["new", "Optional", e],
+                          ["new", "Concat", e, e], ["new", "Either", e], ["new", "MatchAtStart", e] if False else ["new", "Exactly", e, 3]])
+            return r.choice([["new", "Optional", w], ["new", "Indefinite", w], ["new", "OneOrMore", w], ["op", "*", w, 3],
+                             ["new", "AtLeastAtMost", w, 1, 3], ["op", "+", ["lit", "a"], w], ["new", "Capture", w],
+                             ["new", "FollowedBy", ["lit", "a"], w]]), "general"
         a = self.operand()
-        if self.focus is not None and r.random() < 0.45:
+        if self.focus is not None and (self.sticky > 0 or r.random() < 0.45):
             a = ["ref", self.focus]                       # keep working on one object: histories on a shared operand
+            self.sticky = max(0, self.sticky - 1)
         elif a[0] == "ref" and r.random() < 0.5:
             self.focus = a[1]
         same = a if r.random() < 0.25 else None          # the same object twice in one call
@@ -279,6 +289,8 @@ class Gen:
                 return ["call", "capture", a] + ([name] if name else []), "general"
             if g < 0.85:
                 ci = [r.random() < 0.5] if r.random() < 0.5 else []
+                if ci == [True] and a[0] == "ref":
+                    self.focus, self.sticky = a[1], 2     # a flagged group of x, then x again as an operand
                 return (["new", "Group", a] + ci if sp == "class" else ["call", "group", a] + ci), "general"
             if g < 0.93:
                 return ["new", "Backreference", r.choice(["g1", "g2", 1, 7, 12])], "general"
@@ -393,6 +405,8 @@ def _touches_classes(r):
             return True
         if r and r[0] == "op" and r[1] in ("|", "-", "~"):
             return True
+        if r and r[0] == "new" and r[1] in META_UB or (r and r[0] == "new" and r[1] in ("Date", "IPv4")):
+            return True                      # meta patterns are built from classes internally
         return any(_touches_classes(x) for x in r)
     if isinstance(r, dict):
         return any(_touches_classes(v) for v in r.values())
